@@ -82,9 +82,13 @@ class Machine:
         tag = T.ext(x, x.w - 1, x.w - 1)
         pl = self.canon(T.ext(x, wl - 1, 0), t["l"]) if wl else None
         pr = self.canon(T.ext(x, wr - 1, 0), t["r"]) if wr else None
-        left = T.cat([T.false(), T.zeros(mw - wl), pl])
-        right = T.cat([T.true(), T.zeros(mw - wr), pr])
-        return T.ite(tag, right, left)
+        # tag bit outside, payload selected inside: the same shape the book-layout side produces (src.to_bits),
+        # so that canonical witnesses / uninterpreted jet results meet syntactically on both sides
+        if mw == 0:
+            return tag
+        left = T.cat([T.zeros(mw - wl), pl])
+        right = T.cat([T.zeros(mw - wr), pr])
+        return T.cat([tag, T.ite(tag, right, left)])
 
     # -- evaluation ---------------------------------------------------------------------
     def run(self):
